@@ -25,12 +25,20 @@ type Case struct {
 	Tags       []string `json:"tags,omitempty"`
 	Nontrivial bool     `json:"nontrivial"`
 	Origin     string   `json:"origin,omitempty"` // "gen:<n>", "enum:<n>", "corpus:<file>"
+	genIndex   int      // >0: still to be generated (case number + 1)
 }
 
 // Real executes script lines on the implementation.  One Real per case (scripts may be stateful).
 type Real interface {
 	Exec(line string) string
 	Close()
+}
+
+// Hinter is implemented by executors whose real run resolves nondeterminism (Go map iteration
+// order, random choices) that the twin has to be told about: the twin receives `twinLine`
+// (the line plus hints) instead of the line.
+type Hinter interface {
+	ExecHint(line string) (out string, twinLine string)
 }
 
 // RealFunc adapts a stateless function.
@@ -62,6 +70,12 @@ type Prop struct {
 	Sigs map[string]func(c Case, realOut []string, msg string) bool
 	// Shrink proposes smaller variants of a case (may be nil).
 	Shrink func(c Case) []Case
+	// Subprocess: run the real executor in recycled child processes (see subproc.go);
+	// GenInWorker: the generator needs the real system too and also runs there.
+	Subprocess  bool
+	GenInWorker bool
+	// Protected lines are never dropped by the shrinker (set-up lines such as a reset).
+	Protected func(line string) bool
 	// FixedLayout: the monitor addresses lines by position, so the shrinker must not drop lines.
 	FixedLayout bool
 	// NoOracle marks lines that are not sent to the twin (real-only observation lines).
@@ -170,10 +184,16 @@ func runCase(p *Prop, o *oracle.O, c Case) outcome {
 	r := p.NewReal()
 	defer r.Close()
 	for i, ln := range c.Script {
-		ro := r.Exec(ln)
+		var ro string
+		twinLine := ln
+		if h, ok := r.(Hinter); ok {
+			ro, twinLine = h.ExecHint(ln)
+		} else {
+			ro = r.Exec(ln)
+		}
 		out.real = append(out.real, ro)
 		if o != nil && (p.RealOnly == nil || !p.RealOnly(ln)) {
-			to, err := o.Ask(ln)
+			to, err := o.Ask(twinLine)
 			if err != nil {
 				to = "oracle-error " + err.Error()
 			}
@@ -194,11 +214,15 @@ func runCase(p *Prop, o *oracle.O, c Case) outcome {
 // shrink greedily minimises a case while `bad` stays true.
 func shrink(p *Prop, c Case, bad func(Case) bool) Case {
 	cur := c
-	for round := 0; round < 200; round++ {
+	evals := 0
+	for round := 0; round < 200 && evals < 120; round++ {
 		improved := false
 		var cands []Case
 		if len(cur.Script) > 1 && !p.FixedLayout {
 			for i := range cur.Script {
+				if p.Protected != nil && p.Protected(cur.Script[i]) {
+					continue
+				}
 				s := append(append([]string{}, cur.Script[:i]...), cur.Script[i+1:]...)
 				cands = append(cands, Case{Script: s, Tags: cur.Tags, Nontrivial: cur.Nontrivial, Origin: cur.Origin})
 			}
@@ -207,6 +231,10 @@ func shrink(p *Prop, c Case, bad func(Case) bool) Case {
 			cands = append(cands, p.Shrink(cur)...)
 		}
 		for _, cand := range cands {
+			evals++
+			if evals > 120 {
+				break
+			}
 			if bad(cand) {
 				cur = cand
 				improved = true
@@ -250,6 +278,11 @@ func loadScript(path string) (Case, error) {
 // Run executes the check and returns the result; the caller prints and exits.
 func Run(p *Prop, opts Opts) (*Result, error) {
 	start := time.Now()
+	if p.Subprocess {
+		q, pl := viaSubprocess(p)
+		defer pl.closeAll()
+		p = q
+	}
 	res := &Result{Property: p.ID, Tier: opts.Tier, Seed: opts.Seed, Rule: p.Rule,
 		Distribution: map[string]int{}, KnownHits: map[string]int{}}
 	known := LoadKnown(filepath.Join(opts.VerifDir, "KNOWN_FINDINGS.txt"), p.ID)
@@ -289,11 +322,8 @@ func Run(p *Prop, opts Opts) (*Result, error) {
 		if opts.Scale > 0 {
 			n = int(float64(n) * opts.Scale)
 		}
-		root := rng.New(opts.Seed)
 		for i := 0; i < n; i++ {
-			c := p.Gen(root.Fork(uint64(i)), opts.Tier)
-			c.Origin = fmt.Sprintf("gen:%d", i)
-			cases = append(cases, c)
+			cases = append(cases, Case{Origin: fmt.Sprintf("gen:%d", i), genIndex: i + 1})
 		}
 	}
 
@@ -328,6 +358,11 @@ func Run(p *Prop, opts Opts) (*Result, error) {
 				defer o.Close()
 			}
 			for i := w; i < len(cases); i += workers {
+				if g := cases[i].genIndex; g > 0 {
+					c := p.Gen(rng.New(opts.Seed).Fork(uint64(g-1)), opts.Tier)
+					c.Origin = cases[i].Origin
+					cases[i] = c
+				}
 				outs[i] = runCase(p, o, cases[i])
 			}
 		}(w)
@@ -430,6 +465,11 @@ func Run(p *Prop, opts Opts) (*Result, error) {
 		if oc.disLine >= 0 && len(res.Violations) < 5 {
 			min := shrink(p, oc.c, func(c Case) bool { return runCase(p, so, c).disLine >= 0 })
 			o2 := runCase(p, so, min)
+			if o2.disLine < 0 {
+				// the minimised script does not reproduce (a nondeterministic disagreement): report the original
+				o2 = oc
+				min = oc.c
+			}
 			f := Failure{Kind: "correspondence", Case: min, RealOut: o2.real, TwinOut: o2.twin, NoInput: true,
 				Msg: fmt.Sprintf("twin and implementation differ at line %d: real=%q twin=%q", o2.disLine, at(o2.real, o2.disLine), at(o2.twin, o2.disLine))}
 			// does the property's own monitor fail on the disagreeing case or its minimised form?
@@ -487,7 +527,11 @@ func Emit(res *Result, known []Known, outPath string) int {
 		if v.NoInput {
 			suffix = " no-failing-input-found"
 		}
-		fmt.Printf("DETAIL property=%s kind=%s %s\n", res.Property, v.Kind, v.Msg)
+		msg := v.Msg
+		if len(msg) > 600 {
+			msg = msg[:600] + "...(truncated; full text in the replay file)"
+		}
+		fmt.Printf("DETAIL property=%s kind=%s %s\n", res.Property, v.Kind, msg)
 		fmt.Printf("VIOLATION property=%s replay=%s%s\n", res.Property, v.Replay, suffix)
 	}
 	fmt.Printf("corr %s tier=%s seed=%d cases=%d distinct_nontrivial=%d lines=%d known_hits=%v violations=%d wall=%.1fs\n",
